@@ -13,6 +13,15 @@ def lastDim (dims : List Nat) : R Nat := dimFromEnd dims 1
 /-- `iter().sum()` -/
 def sumList (v : List S) : S := v.foldl (· + ·) zero
 
+/-- the slice operation of `element_wise_op`: `f(arrays[0][i % self_length], arrays[1][i % other_length])` -/
+def ewiseOp (f : S → S → S) (sl ol n : Nat) (slices : List (List S)) : R (List S) :=
+  match slices with
+  | [x, y] => tabulateM (fun i => do
+      let u ← getR x (i % sl)
+      let v ← getR y (i % ol)
+      pure (f u v)) n
+  | _ => throw .modelGap
+
 /-- `element_wise_op`: the slice operation indexes both operand slices modulo their last
     dimension. -/
 def ewise (f : S → S → S) (a b : Tensor S) : R (Tensor S) := do
@@ -20,14 +29,7 @@ def ewise (f : S → S → S) (a b : Tensor S) : R (Tensor S) := do
   let sl ← lastDim a.dims
   let ol ← lastDim b.dims
   let n ← lastDim dims
-  let op : List (List S) → R (List S) := fun slices =>
-    match slices with
-    | [x, y] => tabulateM (fun i => do
-        let u ← getR x (i % sl)
-        let v ← getR y (i % ol)
-        pure (f u v)) n
-    | _ => throw .modelGap
-  slicedOp [a, b] op dims dims 1 0
+  slicedOp [a, b] (ewiseOp f sl ol n) dims dims 1 0
 
 def mapT (f : S → S) (a : Tensor S) : Tensor S := ⟨a.dims, a.vals.map f⟩
 
@@ -50,15 +52,19 @@ def sigmoid (a : Tensor S) : Tensor S := mapT sigmoidS a
 /-- `alpha * x + y` -/
 def axpy (alpha : S) (x y : Tensor S) : R (Tensor S) := add (scale x alpha) y
 
+/-- the slice operation of `sum`: `output_slice[0] = arrays[0].iter().sum()` -/
+def sumOp (slices : List (List S)) : R (List S) :=
+  match slices with
+  | [x] => pure [sumList x]
+  | _ => throw .modelGap
+
 /-- `sum(dimension_count)` -/
 def sum (a : Tensor S) (k : Nat) : R (Tensor S) :=
   if k = 0 then pure a
   else
     let leadingCount := a.dims.length - k
     let target := a.dims.take leadingCount ++ List.replicate k 1
-    slicedOp [a] (fun slices => match slices with
-      | [x] => pure [sumList x]
-      | _ => throw .modelGap) a.dims target k k
+    slicedOp [a] sumOp a.dims target k k
 
 def sumAll (a : Tensor S) : S := sumList a.vals
 
